@@ -112,6 +112,7 @@ package astnormalization
 // C03, duplicate field removal: only the later one of two leaf fields of the same selection set is removed, and only
 // after the full comparison (name, alias, arguments, directive set) said they are equal; one removal per visit, then
 // the set is revisited. The first occurrence, and with it the order of the response, stays.
+//@ decl stable deduplicateFieldsVisitor.operation by deduplicateFieldsVisitor.EnterDocument
 //@ func deduplicateFieldsVisitor.EnterSelectionSet
 //@   requires d != nil && d.operation != nil && d.Walker != nil
 //@   ghost var g_equal bool = false
